@@ -236,6 +236,19 @@ class _ModuleCache:
         self.module_map = {}
         self.pycore.cache_observers.append(self._invalidate_resource)
         self.observer = self.pycore.observer
+        # What an import resolves to, and everything concluded from that, can
+        # change when *any* resource is created, moved or removed, not only
+        # when one of the cached modules is.
+        structure_observer = rope.base.resourceobserver.ResourceObserver(
+            moved=self._structure_changed,
+            created=self._structure_changed,
+            removed=self._structure_changed,
+            validate=self._structure_changed,
+        )
+        self.pycore.project.add_observer(structure_observer)
+
+    def _structure_changed(self, resource, new_resource=None):
+        self.forget_all_data()
 
     def _invalidate_resource(self, resource):
         if resource in self.module_map:
